@@ -703,3 +703,57 @@ Proof.
     destruct (lost_in c A_WC p); [rewrite (L3 eq_refl), orb_true_r; congruence|].
     destruct (lost_in (with_miss c m) A_W p || lost_in (with_miss c m) A_WC p); cbn [orb]; congruence.
 Qed.
+
+(* ================================================================================================ *)
+(* 6. a store that serves views of its own arrays *)
+
+Lemma cstart_last_le cs j : allpos cs -> (j <= List.length cs)%nat -> cstart cs j <= zsum cs.
+Proof. intros P H. rewrite <- (cstart_all cs). apply cstart_mono; auto. Qed.
+
+(* an array for which only the dumps of the chunk list t were written, asked for the chunks of the ALIGNED chunk list
+   t ++ k one-dump phantom chunks: every chunk of t is found, every phantom chunk is reported not found - never a
+   malformed chunk; this is what makes trailing dumps "absent" rather than an error (finding C06-F2, fixed) *)
+Lemma dict_store_dump_axis t k j rest_shape rest_sl : allpos t -> (j < List.length t + k)%nat ->
+  dict_get_chunk rest_shape rest_sl = Found ->
+  dict_get_chunk (zsum t :: rest_shape) (chunk_slice (t ++ repeat 1 k) j :: rest_sl) =
+  if Nat.ltb j (List.length t) then Found else NotFound.
+Proof.
+  intros P Hj R. unfold dict_get_chunk in *. cbn [combine existsb forallb fst snd].
+  destruct (existsb _ (combine rest_sl rest_shape)) eqn:E1; [discriminate|].
+  destruct (forallb _ (combine rest_sl rest_shape)) eqn:E2; [|discriminate].
+  unfold chunk_slice, gen_dict_outside. cbn [fst snd].
+  assert (PA : allpos (t ++ repeat 1 k)).
+  { apply allpos_app. split; [exact P|]. clear. induction k; simpl; constructor; [lia|assumption]. }
+  assert (LA : List.length (t ++ repeat 1 k) = (List.length t + k)%nat) by (rewrite app_length, repeat_length; reflexivity).
+  destruct (Nat.ltb j (List.length t)) eqn:L.
+  - apply Nat.ltb_lt in L.
+    assert (A : cstart (t ++ repeat 1 k) j = cstart t j).
+    { unfold cstart. rewrite firstn_app. replace (j - List.length t)%nat with 0%nat by lia. simpl. rewrite app_nil_r. reflexivity. }
+    assert (B : cstart (t ++ repeat 1 k) (S j) = cstart t (S j)).
+    { unfold cstart. rewrite firstn_app. replace (S j - List.length t)%nat with 0%nat by lia. simpl. rewrite app_nil_r. reflexivity. }
+    rewrite A, B.
+    pose proof (cstart_last_le t (S j) P ltac:(lia)) as H1.
+    pose proof (cstart_nonneg t j P) as H0.
+    assert (H2 : cstart t j < cstart t (S j)).
+    { rewrite cstart_S by lia. pose proof (nth_pos t j P L). lia. }
+    replace (cstart t j >=? zsum t) with false by lia. cbn [andb orb].
+    replace ((0 <=? cstart t j) && (cstart t j <=? cstart t (S j)) && (cstart t (S j) <=? zsum t)) with true by lia.
+    reflexivity.
+  - apply Nat.ltb_ge in L.
+    assert (A : zsum t <= cstart (t ++ repeat 1 k) j).
+    { rewrite <- (cstart_all t). replace (cstart t (List.length t)) with (cstart (t ++ repeat 1 k) (List.length t)).
+      - apply cstart_mono; [exact PA|exact L|lia].
+      - unfold cstart. rewrite firstn_app. replace (List.length t - List.length t)%nat with 0%nat by lia.
+        simpl. rewrite app_nil_r. reflexivity. }
+    assert (B : cstart (t ++ repeat 1 k) j < cstart (t ++ repeat 1 k) (S j)).
+    { rewrite cstart_S by lia. pose proof (nth_pos _ j PA ltac:(lia)). lia. }
+    replace (cstart (t ++ repeat 1 k) j >=? zsum t) with true by lia.
+    replace (cstart (t ++ repeat 1 k) (S j) >? cstart (t ++ repeat 1 k) j) with true by lia.
+    reflexivity.
+Qed.
+
+Lemma ex_dict_store :
+  dict_get_chunk [3; 4] [(2, 3); (0, 4)] = Found /\ dict_get_chunk [3; 4] [(3, 4); (0, 4)] = NotFound /\
+  dict_get_chunk [3; 4] [(2, 4); (0, 4)] = Malformed /\ dict_get_chunk [3; 4] [(1, 1); (4, 4)] = Found /\
+  chunk_slice ([2; 1] ++ repeat 1 2) 3 = (4, 5).
+Proof. vm_compute. repeat split; reflexivity. Qed.
